@@ -17,6 +17,7 @@ RULES = {
              "otherwise the mean over components of [|t - p| < tol] (strict), the single-output special case being the same formula for "
              "n = 1; Tensor::argmax is the index of a maximum under partial_cmp over enumerate()",
 }
+RULES["R12.3"] += " | decided on the E6 summary of the per-sample closure of validate: every non-panicking path requires the last layer to be Dense; Softmax => accuracy is 1.0/0.0 by argmax(target) == argmax(prediction); otherwise target length 1 => [|p0 - t0| < tol], else sum over zipped components of [|t - p| < tol] / len(target) (strict <)"
 ASSUMPTIONS = ["rayon ordering contract (see C05)", "the numeric metrics themselves are not decided"]
 TRUSTED = ["rustc nightly front end", "driver/src/main.rs", "sa/e1.py", "sa/e4.py"]
 
